@@ -374,7 +374,7 @@ pub fn display_kw_contains(s: &str) -> (r: bool) ensures r == display_keyword(s@
     ba.rewrite("R5", "String::new()", "string_new()", why="String::new")
     ba.rewrite_re("R5", r"\b(left|right)\.as_ref\(\)", r"&**\1", count=None, why="Box::as_ref is a dereference")
     ba.rewrite_re("R5", r"&op\.to_string\(\)", "&binop_to_string(op)", count=None, why="strum Display of BinOp")
-    ba.insert_before("Some(r)", "proof { assert(binary_arm_ok(*this, *op, **left0, **right0, opt0, r, opt0.rem_width, opt_right.rem_width)); let ghost res_g = Some(r); assert(res_g->0 == r); assert(exists|rw1: u16, rw2: u16| binary_arm_ok(*this, *op, **left0, **right0, opt0, res_g->0, rw1, rw2)); }",
+    ba.insert_before("Some(r)", "proof { assert(binary_arm_ok(*this, *op, **left0, **right0, opt0, r, opt0.rem_width, opt_right.rem_width)); let ghost res_g = Some(r); assert(res_g->0 == r); assert(exists|rw1: u16, rw2: u16| binary_arm_ok(*this, *op, **left0, **right0, opt0, res_g->0, rw1, rw2)); } // @BA1",
                      "proof hint: witnesses for the two line-width values")
     ba.text = ("pub fn binary_arm(this: &pr::ExprKind, op: &pr::BinOp, left0: &Box<pr::Expr>, right0: &Box<pr::Expr>, opt0: WriteOpt) -> (res: Option<String>)\n"
                "    requires *this == (pr::ExprKind::Binary(pr::BinaryExpr { left: *left0, op: *op, right: *right0 })),\n"
